@@ -287,7 +287,9 @@ def main():
             case = dict(env=env, file=file_model, metrics=metrics)
             oracle(run, sorted(allow), metrics, facet, case)
             # ... and judged against the configuration as it stands now (file and environment), whatever the reader returned
-            now = (file_model if isinstance(file_model, list) else []) + [x.strip() for x in (env or '').split(',') if x.strip()]
+            # the file, when it can be read, IS the configuration (its safe_metrics list, empty if the key is missing or the list
+            # is empty: lock-down); the environment variable counts only without a readable file
+            now = file_model if isinstance(file_model, list) else [x.strip() for x in (env or '').split(',') if x.strip()]
             oracle(run, sorted(set(now)), metrics, facet, dict(case, configured_now=sorted(set(now)), reader_returned=sorted(allow)))
             if file_model is None and (env is None or not env.strip(' ,\t\n ')) and facet:
                 run.violation('empty-allowlist-exports (deployed) env=%r' % env,
